@@ -186,6 +186,15 @@ func c16Build(kind string) *c16Prog {
 			return mnemIs(al, ".string") && same(c, al.Rest, "\"inline$\"")
 		}, func() []int { return []int{hs.Line + 1} }}}, cp.expects...)
 		cp.prog = &Program{Atoms: atoms, Tops: []interface{}{hs, text, mov, mart, ms}}
+	case "raw-empty", "raw-blank", "raw-crlf":
+		// edge layouts of raw blocks: only transparency, marker form, path and
+		// range are asserted (no per-line expectation)
+		text := map[string]string{
+			"raw-empty": "raw ``",
+			"raw-blank": "raw `\n\n\n`",
+			"raw-crlf":  "raw `\r\nfirst\r\nsecond\r\n`\r",
+		}[kind]
+		cp.prog = &Program{Atoms: atoms, Tops: []interface{}{&TopRaw{Text: text}, &Script{Name: sname, Body: []Stmt{newCmd()}}}}
 	case "raw-same-line", "raw-next-line":
 		rw := &RawTopStmt{Lines: []string{"rawline_one", "rawline_two 100% %d %%s", "\t.string \"three$\" @ comment"}, SameLine: kind == "raw-same-line"}
 		cp.raws = append(cp.raws, rw)
@@ -411,7 +420,7 @@ func matchKnownC16(k *KnownFinding, f *Finding) bool {
 // RunC16 is the check of property C16.
 func RunC16(env *Env, rep *Report) {
 	var cases []*Case
-	for _, kind := range []string{"script", "autovar", "data", "raw-same-line", "raw-next-line"} {
+	for _, kind := range []string{"script", "autovar", "data", "raw-same-line", "raw-next-line", "raw-empty", "raw-blank", "raw-crlf"} {
 		cases = append(cases, c16Case(kind, "concrete"))
 	}
 	cases = append(cases, c16Case("script", "atom"), c16Case("data", "backslash"))
@@ -420,7 +429,7 @@ func RunC16(env *Env, rep *Report) {
 	}
 	rep.Technique = "symbolic execution of the real emitter's line-marker paths (go/ssa) with symbolic line numbers (a strictly increasing symbolic map of the rendered lines) and a symbolic input path; assertions on the marker lines decided by the solver (z3 LIA + seq)"
 	rep.Explanation = "Bounded symbolic verification, not a proof. Programs containing every construct that gets a marker (commands, labels, flag/var/defeated operands in if/elif/while/do-while, switch operand and cases, autovar conditions and switches, text statements and inline text, movement statements, steps and hoisted moves(), marts and items, map-script entries and table rows, raw blocks with the backtick on the keyword's line or the next) are compiled by symbolic execution with every token's line number replaced by L(k), a strictly increasing symbolic function of the rendered line k with L(1)>=1 and L(last)<=N - i.e. any number of blank or comment lines anywhere - and with the input path a symbolic string, a path with backslashes, or empty. Asserted: (1) the -lm output without its marker lines equals the -lm=false output line by line; (2) every marker has the form '# n \"path\"' with the given path (backslashes doubled), 1<=n<=N valid under the path condition, and n = L(k) for the source line k of the construct that follows it (validity queries to the solver); (3) with an empty path there are no markers."
-	rep.Bounds = map[string]interface{}{"programs": []string{"script (all statement kinds)", "autovar", "data (text, movement, mart, mapscripts, hoisted text and movement)", "raw (two layouts)"}, "cases": len(cases), "paths": "concrete, symbolic (printable, no quote), with backslashes, empty"}
+	rep.Bounds = map[string]interface{}{"programs": []string{"script (all statement kinds)", "autovar", "data (text, movement, mart, mapscripts, hoisted text and movement)", "raw (two layouts; empty, blank-only and CRLF blocks for transparency)"}, "cases": len(cases), "paths": "concrete, symbolic (printable, no quote), with backslashes, empty"}
 	rep.Outside = []string{"two constructs written on the same source line (each rendered line holds one construct; L is strictly increasing)", "other program shapes", "whether every construct gets a marker (the property only constrains the markers that are emitted)"}
 	rep.Assumptions = []string{"inside a raw block source lines are consecutive", "for a text statement the marker may name the line of the 'text' keyword or of its first literal"}
 	rep.Functions = []string{"tryEmitLineMarker", "emitLineMarker", "shouldEmitLineMarkers", "emitRawStatement", "emitText", "emitMovementStatement", "emitMartStatement", "emitMapScriptStatement", "renderStatements", "renderBranchComparison", "switchBranch"}
